@@ -617,6 +617,11 @@ def impl_only(tag, cases, bins, parts=None):
 
 # ----------------------------------------------------------------------------- running both sides
 
+def osig(o):
+    """stable signature of a failing oracle verdict: the name of its first finding"""
+    return "oracle:" + re.sub(r"\[.\]|:.*", "", o.split(":", 1)[1].split(",")[0]) if ":" in o else "oracle"
+
+
 def split_impl(line):
     m = re.match(r"^(res=.* final=\S+) oracle=(\S+) checks=(\d+)$", line)
     if not m:
@@ -666,10 +671,19 @@ def run(tier, seed, replay=None):
     else:
         cases = vf.load_corpus(PROP)
         cases += [happy_path("mem", 2), happy_path("fs", 2), happy_path("mem", 3, "afs"), happy_path("fs", 3, "afs")]
+        if tier == "thorough":
+            cases += exhaustive("mem", 2)   # every sequence of <= 2 abstract actions also goes through the model
         n = 28 if tier == "quick" else 600
         n = int(os.environ.get("VERIF_C17_CASES", n))   # experiments with planted bugs only
         for i in range(n):
             cases.append(gen_case(r.rng, tier, fault_rate=0.25 if i % 4 == 1 else 0.1))
+    if tier == "thorough" and not replay:
+        rc, out = vf.sh(["coqchk", "-silent", "-o", "-Q", vf.COQ, "Echo", "Echo.Props.C17"], timeout=1500)
+        ax = sorted({l.strip() for l in out.split("* Axioms:")[-1].split("* Constants")[0].splitlines() if l.strip() and "<none>" not in l})
+        r.phase("P1b_coqchk", rc=rc, axioms_in_closure=ax)
+        r.cov["coqchk_axioms_in_vo_closure"] = ax   # stdlib Uint63 specification axioms (B3 instance only); theorems: closed
+        if rc:
+            r.is_broken("coqchk", out[-1500:])
     try:
         bins = vf.cargo_build(["c17"])
         r.phase("P3_build", ok=True)
@@ -690,8 +704,7 @@ def run(tier, seed, replay=None):
             sweep_n = len(sweep)
             sbad, sweep_checks = impl_only("c17sweep", sweep, bins)
             for c, o in sbad[:5]:
-                sig = "oracle:" + re.sub(r"\[.\]|:.*", "", o.split(":", 1)[1].split(",")[0]) if ":" in o else "oracle"
-                r.violation(sig, f"implementation oracle failed in the exhaustive sweep: {o}", {"case": c, "oracle": o})
+                r.violation(osig(o), f"implementation oracle failed in the exhaustive sweep: {o}", {"case": c, "oracle": o})
         except vf.Broken as e:
             r.is_broken("sweep-run", e)
     r.cov["exhaustive_sweep_cases_impl_oracle"] = sweep_n
@@ -699,21 +712,20 @@ def run(tier, seed, replay=None):
                                       f"{ABSTRACT} on the in-memory store, and <= 1 / 2 on the filesystem store, oracle only")
     for i, o in enumerate(oracle):
         if o != "ok":
-            sig = "oracle:" + re.sub(r"\[.\]|:.*", "", o.split(":", 1)[1].split(",")[0]) if ":" in o else "oracle"
-            r.violation(sig, f"implementation oracle failed: {o}", {"case": cases[i], "oracle": o})
-    for i in bad[:2]:
+            r.violation(osig(o), f"implementation oracle failed: {o}", {"case": cases[i], "oracle": o})
+    for i in bad[:1]:
         store, ops = parse_case(cases[i])
 
         def still(cand):
             c = render_case(store, cand)
             a, b, _, _ = both("c17shrink", [c], bins)
             return a != b
-        small = vf.shrink_list(ops, still, max_rounds=30) if len(ops) <= 60 else ops
+        small = vf.shrink_list(ops, still, max_rounds=int(os.environ.get("VERIF_C17_SHRINK_ROUNDS", "14"))) if len(ops) <= 60 else ops
         c = render_case(store, small)
         a, b, o, _ = both("c17shrink", [c], bins)
         r.is_broken("correspondence", f"model and implementation differ on: {c}\n {first_diff(a[0], b[0])}")
         if o[0] != "ok":
-            r.violation("oracle:" + o[0], "oracle fails on shrunk disagreement", {"case": c, "oracle": o[0]})
+            r.violation(osig(o[0]), f"oracle fails on shrunk disagreement: {o[0]}", {"case": c, "oracle": o[0]})
     if (r.broken and not r.violations) and not replay:
         extra = [gen_case(r.rng, "thorough", fault_rate=0.2) for _ in range(1500)]
         path = vf.write_cases("c17search", extra)
@@ -721,7 +733,7 @@ def run(tier, seed, replay=None):
         for c, l in zip(extra, [l for l in out.splitlines() if l.startswith("res=")]):
             _, o, _ = split_impl(l)
             if o != "ok":
-                r.violation("oracle:search:" + o[:60], "oracle failed during search", {"case": c, "oracle": o})
+                r.violation(osig(o), f"oracle failed during search: {o}", {"case": c, "oracle": o})
                 break
         r.phase("P6_search", cases=len(extra))
     # evidence
